@@ -253,6 +253,7 @@ func (a hiveL) RevWalk(cap int) ([]int, bool) {
 
 	return out, false
 }
+
 var errAbort = fmt.Errorf("callback failed")
 
 func (a hiveL) Abort(k int, rev bool) ([]int, string) {
@@ -1841,5 +1842,6 @@ func main() {
 	concurrentSmoke(r)
 	readerSnapshots(r)
 	concurrentHistories(r)
+	twoLists(r)
 	r.Finish()
 }
